@@ -369,17 +369,26 @@ def _pin_integers(d: Sym) -> Sym:
 def dependence_obligations(K: SymK, calls, facts):
     out = []
     seen = set()
+    sfx = (f"[{cfg_str(K.cfg)}]" if K.cfg else "") + K.path
+    trivial = {}
+
+    def note_trivial(call, wname, rname, offs, why):
+        key = (call["kernel"], wname, rname, tuple(offs), why)
+        trivial[key] = trivial.get(key, 0) + 1
+
     for ci, call in enumerate(calls):
         space = call["space"]
         dim = len(space)
         for wi, (wname, wv, reads) in enumerate(call["writes"]):
             for (rname, offs, rv) in reads:
                 if rv.buf is not wv.buf:
+                    note_trivial(call, wname, rname, offs, "distinct buffers")
                     continue
                 same_view = all(a[0] == b[0] and (a[0] == "fix" and a[2].same(b[2]) or
                                                   a[0] == "ax" and a[2].same(b[2]))
                                 for a, b in zip(wv.spec, rv.spec))
                 if same_view and not any(offs):
+                    note_trivial(call, wname, rname, offs, "identical view read at the centre cell")
                     continue  # the written cell itself, read at the centre
                 sig = (call["kernel"], wname, rname, offs, tuple(str(s) for s in wv.spec), tuple(str(s) for s in rv.spec))
                 if sig in seen:
@@ -412,6 +421,11 @@ def dependence_obligations(K: SymK, calls, facts):
                     f"{K.unit}/dependence/call{ci}.{wname}|{wname2}" + (f"[{cfg_str(K.cfg)}]" if K.cfg else "") + K.path,
                     ("C15",), (~hit) | same_cell, list(facts) + [rng], kind="dependence",
                     note=f"kernel {call['kernel']} writes {wname} and {wname2} into buffer {wv.buf.name}"))
+    # accesses decided by buffer identity alone (one obligation per kernel / field pair / reason)
+    for (kid, wname, rname, offs, why), n in sorted(trivial.items(), key=str):
+        out.append(Obligation(f"{K.unit}/dependence/kernel{kid}.{wname}<-{rname}{list(offs)}:{why.replace(' ', '_')}" + sfx,
+                              ("C15",), BoolSym.const(True), [], kind="frame-log",
+                              note=f"{n} call(s): {why}"))
     return out
 
 
